@@ -50,8 +50,10 @@ class Tok(T.NamedTuple):
     extra: T.Any = None   # for strings: (is_f, is_multi, raw_body)
 
 
-def lex(text: str) -> T.Tuple[T.List[Tok], T.List[str]]:
-    """Returns (tokens, comments).  Newlines inside (), [], {} are not tokens."""
+def lex(text: str, lenient_nl: bool = False) -> T.Tuple[T.List[Tok], T.List[str]]:
+    """Returns (tokens, comments).  Newlines inside (), [], {} are not tokens.
+    lenient_nl: read a raw newline inside '...' (deprecated, announced hard error) as that character instead of
+    raising Unspecified (used by C17 to keep comparing values after it has reported the construct)."""
     toks: T.List[Tok] = []
     comments: T.List[str] = []
     depth = 0
@@ -80,7 +82,7 @@ def lex(text: str) -> T.Tuple[T.List[Tok], T.List[str]]:
             is_f = k in ('fstr', 'mfstr')
             is_m = k in ('mstr', 'mfstr')
             body = s[(1 if is_f else 0) + (3 if is_m else 1):-(3 if is_m else 1)]
-            if not is_m and '\n' in body:
+            if not is_m and '\n' in body and not lenient_nl:
                 raise Unspecified('newline inside a single-quoted string (deprecated)')
             val = body if is_m else decode_escapes(body)
             toks.append(Tok('str', val, i, j, (is_f, is_m, body)))
@@ -168,11 +170,14 @@ CMP_OPS = {'==', '!=', '<', '<=', '>', '>='}
 
 
 class Parser:
-    def __init__(self, text: str):
+    def __init__(self, text: str, lenient_nl: bool = False):
         self.text = text
-        self.toks, self.comments = lex(text)
+        self.toks, self.comments = lex(text, lenient_nl)
         self.i = 0
         self.in_ternary = 0
+        # (start offset, end offset, node) of every simple (non-if/foreach) statement at any nesting depth, in
+        # source order: the statement extents C16/C17 use to decide "every other statement is unchanged"
+        self.leaves: T.List[T.Tuple[int, int, tuple]] = []
 
     @property
     def t(self) -> Tok:
@@ -230,6 +235,13 @@ class Parser:
                 return self.ifstmt()
             if t.val == 'foreach':
                 return self.foreach()
+        node = self.simple_statement()
+        self.leaves.append((t.pos, self.toks[self.i - 1].end, node))
+        return node
+
+    def simple_statement(self):
+        t = self.t
+        if t.kind == 'kw':
             if t.val == 'break':
                 self.adv()
                 return ('break',)
@@ -493,9 +505,19 @@ class RangeV(T.NamedTuple):
         return list(range(self.start, self.stop, self.step))
 
 
+class Opaque(T.NamedTuple):
+    """Value of a call to a function outside the core language (files(), executable(), ...) when the caller of
+    Evaluator asked for such calls to be kept as uninterpreted constructors (C17)."""
+    fname: str
+    args: tuple
+    kwargs: tuple     # ((name, value), ...) in source order
+
+
 def tname(v) -> str:
     if v is None:
         return 'void'
+    if isinstance(v, Opaque):
+        return 'opaque'
     if isinstance(v, bool):
         return 'bool'
     if isinstance(v, int):
@@ -549,10 +571,14 @@ RESERVED_VARS = {'meson', 'build_machine', 'host_machine', 'target_machine'}
 class Evaluator:
     """Evaluates an AST.  `funcs` may add host functions (name -> callable(ev, args, kwargs))."""
 
-    def __init__(self, variables: T.Optional[dict] = None):
+    def __init__(self, variables: T.Optional[dict] = None, opaque_calls: bool = False):
         self.vars: T.Dict[str, T.Any] = dict(variables or {})
         self.loop_depth = 0
         self.messages: T.List[str] = []
+        # opaque_calls: a function outside the core language evaluates to Opaque(name, args, kwargs) instead of
+        # raising Unspecified; every such call is appended to self.calls in evaluation order
+        self.opaque_calls = opaque_calls
+        self.calls: T.List[Opaque] = []
 
     # ---- statements ----
     def run(self, block) -> T.Dict[str, T.Any]:
@@ -751,6 +777,8 @@ class Evaluator:
             if op == '+' and tl == 'list':
                 raise Unspecified('range object stored in a container')
             raise Fail('range supports no operators')
+        if (tl == 'opaque' or tr == 'opaque') and not (op == '+' and tl == 'list'):
+            raise Unspecified('operator on an object outside the core language model')
         if op == '+':
             if tl == 'int' and tr == 'int':
                 return l + r
@@ -787,6 +815,8 @@ class Evaluator:
         tl, tr = tname(l), tname(r)
         if tl == 'void' or tr == 'void':
             raise Fail('void operand')
+        if tl == 'opaque' or tr == 'opaque':
+            raise Unspecified('comparison of an object outside the core language model')
         if op in ('in', 'not in'):
             if tr == 'list':
                 if tl == 'range':
@@ -825,6 +855,8 @@ class Evaluator:
 
     def index(self, o, i):
         to, ti = tname(o), tname(i)
+        if to == 'opaque' or ti == 'opaque':
+            raise Unspecified('indexing with an object outside the core language model')
         if to in ('list', 'str', 'range'):
             if ti == 'bool':
                 raise Unspecified('bool used as index')
@@ -944,6 +976,10 @@ class Evaluator:
             return None
         if name == 'error':
             raise Fail('error() called')
+        if self.opaque_calls:
+            o = Opaque(name, tuple(args), tuple(kwargs.items()))
+            self.calls.append(o)
+            return o
         raise Unspecified('function %s is outside the core language model' % name)
 
     # ---- methods ----
@@ -951,6 +987,8 @@ class Evaluator:
         t = tname(o)
         if t == 'void':
             raise Fail('method on void')
+        if t == 'opaque':
+            raise Unspecified('method of an object outside the core language model')
         f = getattr(self, 'm_%s_%s' % (t, name), None)
         if f is None:
             raise Fail('unknown method %s.%s' % (t, name))
@@ -1263,6 +1301,8 @@ def canon(v):
         return ('d', tuple((k, canon(v[k])) for k in v))
     if t == 'range':
         return ('r', tuple(v))
+    if t == 'opaque':
+        return ('o', v.fname, tuple(canon(x) for x in v.args), tuple((k, canon(x)) for k, x in v.kwargs))
     return (t[0], v)
 
 
